@@ -124,6 +124,12 @@ func buildFromDefinition(def *configDefinition, lc *loaderContext) (cfg *Config,
 		}
 	}
 
+	for k, p := range cfg.Pipelines {
+		if includesPipeline(p, p, make(map[*scheduler.ExecutionGraph]bool)) {
+			return nil, fmt.Errorf("pipeline %s includes itself", k)
+		}
+	}
+
 	cfg.Import = def.Import
 	cfg.Debug = def.Debug
 	cfg.Output = def.Output
